@@ -127,6 +127,16 @@ def tokenInsts (d : Desc) : List (Nat × Inst) :=
 
 def zoneTokens (d : Desc) (zone : String) : List (Nat × Inst) := tokenInsts (d.filter (·.zone == zone))
 
+/-- `ringInstanceByToken[token]` (`Desc.getTokensInfo`): the descriptor entry that registered the token.
+(Unique in a well-formed ring; for a token registered twice Go keeps whichever map entry is iterated
+last — outside the rings the properties quantify over.) -/
+def instanceByToken (d : Desc) (t : Nat) : Option Inst := d.find? (fun i => i.tokens.contains t)
+
+/-- the zone's token list with the flags `info.InstanceID == instanceID`; `none` = some token of the
+list has no entry in `ringInstanceByToken` (the `ErrInconsistentTokensInfo` returns). -/
+def zoneFlagsOf (d : Desc) (toks : List Nat) (id : String) : Option (List (Nat × Bool)) :=
+  toks.mapM fun t => (instanceByToken d t).map fun i => (t, i.id == id)
+
 /-- `GetTokenRangesForInstance` with the walk as a parameter (the code: `instRangesOf`;
 before fix 9068690: `instRangesOfOld`). -/
 def rangesForInstanceWith (walk : List (Nat × Bool) → List Nat) (d : Desc) (zoneAware : Bool) (rf : Nat)
@@ -137,9 +147,11 @@ def rangesForInstanceWith (walk : List (Nat × Bool) → List Nat) (d : Desc) (z
     if inst.zone == "" then .error .zoneNotSet
     else if !zoneAware || rf != (zonesOf d).length then .error .badConfig
     else
-      let zt := zoneTokens d inst.zone
-      if zt.isEmpty then .error .noTokensForZone
-      else .ok (walk (zt.map fun p => (p.1, p.2.id == id)))
+      let toks := (zoneTokens d inst.zone).map (·.1)      -- r.ringTokensByZone[instance.Zone]
+      if toks.isEmpty then .error .noTokensForZone
+      else match zoneFlagsOf d toks id with
+        | none => .error .inconsistent                     -- ErrInconsistentTokensInfo
+        | some zt => .ok (walk zt)
 
 /-- `Ring.GetTokenRangesForInstance` -/
 def rangesForInstance := rangesForInstanceWith instRangesOf
@@ -229,6 +241,21 @@ def rangesForPartition (d : PDesc) (pid : Int) : Except Err (List Nat) :=
   match d.get? pid with
   | none => .error .partitionDoesNotExist
   | some p => partRangesOf d.ringTokens p.tokens
+
+/-- `partitionByToken()[token]` -/
+def partitionByToken (d : PDesc) (t : Nat) : Option Int := (d.parts.find? (·.tokens.contains t)).map (·.id)
+
+/-- `buildRingTokenPartitionLookups` (called by `NewPartitionRing`): for every ring token the owning
+partition id and its active flag; `ErrInconsistentTokensInfo` if a token has no partition or the partition
+id is not in the map. -/
+def buildLookups (d : PDesc) : Except Err (List (Nat × Int × Bool)) :=
+  d.ringTokens.mapM fun t =>
+    match partitionByToken d t with
+    | none => .error .inconsistent
+    | some pid =>
+      match d.get? pid with
+      | none => .error .inconsistent
+      | some p => .ok (t, pid, p.isActive)
 
 /-- `ActivePartitionForKey`: from `searchToken`, walk at most `len` steps, return the first
 partition whose parallel active flag is set. -/
